@@ -6,6 +6,8 @@ comma list <props> with VERIF_REPO pointing at the copy and VERIF_OUT at a scrat
 committed evidence and replays are never touched), then delete the copy. Safe to run concurrently.
 Prints DETECTED / MISSED / ERROR per property."""
 import sys, subprocess, os, time, tempfile, shutil
+ROOT = os.path.dirname(os.path.dirname(os.path.abspath(__file__)))
+CHECK = os.path.join(ROOT, "check")
 args = sys.argv[1:]
 extra = []
 if "--" in args:
@@ -42,7 +44,7 @@ try:
     env = dict(os.environ, VERIF_REPO=repo, VERIF_OUT=os.path.join(tmp, "out"))
     for pr in props:
         t0 = time.time()
-        r = subprocess.run(["/verif/check", pr] + extra, stdout=subprocess.PIPE, stderr=subprocess.STDOUT, text=True, env=env)
+        r = subprocess.run([CHECK, pr] + extra, stdout=subprocess.PIPE, stderr=subprocess.STDOUT, text=True, env=env)
         out = r.stdout
         v = [l for l in out.split("\n") if l.startswith(("VIOLATION", "violation detail", "HARNESS", "KNOWN"))]
         print("%s %s rc=%d %.0fs" % ({0: "MISSED", 1: "DETECTED"}.get(r.returncode, "ERROR"), pr, r.returncode, time.time() - t0))
@@ -51,7 +53,7 @@ try:
             # the replay interface: every reported replay file must reproduce the violation on the same (patched) tree
             for l in [l for l in out.split("\n") if l.startswith("VIOLATION")][:2]:
                 path = l.split("replay=", 1)[1].strip()
-                rr = subprocess.run(["/verif/check", pr, "--replay", path], stdout=subprocess.PIPE, stderr=subprocess.STDOUT, text=True, env=env)
+                rr = subprocess.run([CHECK, pr, "--replay", path], stdout=subprocess.PIPE, stderr=subprocess.STDOUT, text=True, env=env)
                 print("    REPLAY-%s %s rc=%d %s" % ("OK" if rr.returncode == 1 else "MISMATCH", os.path.basename(path), rr.returncode,
                                                    rr.stdout.strip().split("\n")[-1][:200] if rr.returncode != 1 else ""))
         if r.returncode == 2: print(out[-600:])
